@@ -95,7 +95,20 @@ func runWireMsg(c *core.Ctx) {
 			msg := r.Results[0]
 			construct := fmt.Sprintf("%s: wire message for %s", name, cp.Name)
 			if isLeaf {
-				if isErrorOfSelf(cp.Enc, msg) {
+				ownText := false
+				if cp.ET != nil {
+					// the type's Error() is its one text field with the markers stripped, and so is the message
+					if sh := shapes[cp.ET.Named]; sh.ErrShape == ShOwn && sh.ErrField != nil {
+						d2 := map[string]bool{}
+						for _, o := range e.TraceRecv(msg, nil).List() {
+							collectRecv(o, d2, 0)
+						}
+						if len(d2) == 1 && d2[sh.ErrField.Name()] && isRedactableStringType(sh.ErrField.Type()) && strippedFieldText(msg) {
+							ownText = true
+						}
+					}
+				}
+				if isErrorOfSelf(cp.Enc, msg) || ownText {
 					c.Ob(construct, pos, true, "L1: message = err.Error()")
 				} else {
 					c.Fail(construct, pos, "L1: a leaf encoder's wire message is not its argument's Error() text ("+describeMsg(e, msg)+"): a receiver that does not know the type shows a different text")
@@ -169,6 +182,19 @@ func strippedFieldText(v ssa.Value) bool {
 			}
 		}
 		return len(x.Edges) > 0
+	case *ssa.Extract:
+		// a result of an unexported helper of the package: what the helper returns at that position
+		if call, ok := x.Tuple.(*ssa.Call); ok {
+			if h := sx.Callee(call); h != nil && h.Blocks != nil && !sx.Exported(h) && call.Parent() != nil && h.Pkg == call.Parent().Pkg {
+				rets := sx.Returns(h)
+				for _, hr := range rets {
+					if x.Index >= len(hr.Results) || !strippedFieldText(hr.Results[x.Index]) {
+						return false
+					}
+				}
+				return len(rets) > 0
+			}
+		}
 	}
 	return false
 }
